@@ -494,6 +494,32 @@ def run(ctx):
 
     stats = json.load(open(os.path.join(ctx.out, "c16.stats.json")))
     c = stats["counters"]
+    # ---- generator floors (quick-tier values; thorough is far above): below a floor the run proves nothing about that class
+    floors = {"escalation": 20, "gen.reload": 30, "gen.reload.shared": 5, "floor.marked": 20, "fail.ignorable": 50,
+              "fail.suppressed": 500, "probe.nothing": 20, "streak.broken": 20,
+              "death.probe.tcp": 50, "death.probe.udp": 50, "death.traffic.tcp": 5, "death.traffic.udp": 5,
+              "threshold.k-th=-1": 5, "threshold.k-th=+0": 5, "threshold.k-th=+1": 5, "threshold.k-th=+2": 5}
+    for tok in ("t4", "t6", "T4", "T6", "a4", "a6", "b4", "b6", "d4", "d6", "u4", "u6", "x4", "x6", "y4", "y6", "z4", "z6"):
+        floors["typ." + tok] = 40
+    low = {k: (c.get(k, 0), v) for k, v in floors.items() if c.get(k, 0) < v}
+    ks = ctx.cov.get("kernel_side")
+    if isinstance(ks, dict):
+        kfloors = {"reload": 50, "reload.shared_node": 10, "reload.name_only_in_other_group": 5, "retired": 30, "clone": 10,
+                   "old_gen_report_while_draining": 100, "old_gen_report_before_retire": 30,
+                   "closure.mode0": 300, "closure.mode1": 300, "closure.mode2": 300, "closure.mode3": 300}
+        low.update({"kernel." + k: (ks.get(k, 0), v) for k, v in kfloors.items() if ks.get(k, 0) < v})
+        ws = ctx.cov.get("wiring_side", {})
+        wfloors = {"mode.ip": 2, "group.override_clones": 3, "killall": 30}
+        low.update({"wiring." + k: (ws.get(k, 0), v) for k, v in wfloors.items() if ws.get(k, 0) < v})
+        if sum(ws.get(k, 0) for k in ("mode.domain", "mode.domain+", "mode.domain++")) < 2:
+            low["wiring.mode.domain*"] = (0, 2)
+    if any(r["Rounds"] < 5000 for r in race.values()) and not os.environ.get("VERIF_C16_RACE_ROUNDS"):
+        low["race.rounds"] = (min(r["Rounds"] for r in race.values()), 5000)
+    ctx.cov["generator_floors"] = {"floors": floors, "below": low}
+    if low and not os.environ.get("VERIF_C16_SCENARIOS"):
+        ctx.say("GENERATOR-FLOOR not reached (count, floor):", json.dumps(low, sort_keys=True))
+        return 2
+
     ctx.samples = [l for l in op_lines if l.startswith(("probe", "tfail", "floor", "inherit", "group"))][:8]
     ctx.cov["input_distribution"] = c
     ctx.assumptions += [
